@@ -299,7 +299,14 @@ def run_program(oplist, depth, mode, mask):
     chosen = [n for k, n in enumerate(["a", "b", "c", "z"]) if mask & (1 << k)]
     fd, path = tempfile.mkstemp(prefix="vf_c19_")
     try:
-        os.write(fd, ("\n".join(chosen) + "\n").encode("utf8"))
+        # list-file formats: newline-terminated; last line without a newline; CRLF with padding and a blank line
+        if mode == 2:
+            text = "\n".join(chosen)
+        elif mode == 3:
+            text = "".join("  %s \r\n" % c for c in chosen) + "\r\n"
+        else:
+            text = "\n".join(chosen) + "\n"
+        os.write(fd, text.encode("utf8"))
         os.close(fd)
         _Runner.ran = None
         try:
@@ -318,7 +325,7 @@ def run_program(oplist, depth, mode, mask):
 def h_program(o0: int, o1: int, o2: int, o3: int, budget: int, depth: int, mode: int, mask: int) -> bool:
     """
     pre: 0 <= o0 < 20 and 0 <= o1 < 20 and 0 <= o2 < 20 and 0 <= o3 < 20
-    pre: 1 <= budget <= 4 and 0 <= depth <= 3 and 0 <= mode < 2 and 0 <= mask < 16
+    pre: 1 <= budget <= 4 and 0 <= depth <= 3 and 0 <= mode < 4 and 0 <= mask < 16
     post: _
     """
     try:
@@ -326,8 +333,8 @@ def h_program(o0: int, o1: int, o2: int, o3: int, budget: int, depth: int, mode:
         d = ch.sel("depth", depth, 4)
         st = {"i": 0, "budget": b, "ops": []}
         build([o0, o1, o2, o3], st, d)
-        md = ch.sel("mode", mode, 2)
-        mk = ch.sel("mask", mask, 16) if md == 1 else 0
+        md = ch.sel("mode", mode, 4)
+        mk = ch.sel("mask", mask, 16) if md >= 1 else 0
     except (ch.Prune, IndexError):
         return True
     o = run_program(st["ops"], d, md, mk)
@@ -360,7 +367,9 @@ def _filter_shards(tier):
 
 def _program_shards(tier):
     b, d = (3, 2) if tier == "quick" else (4, 2)
-    return [({"budget": b, "depth": d, "mode": 0}, 900)] + [({"budget": b, "depth": d, "mode": 1, "o0": o0}, 900) for o0 in range(NL, NOPS)]
+    b2 = 2 if tier == "quick" else b
+    return ([({"budget": b, "depth": d, "mode": 0}, 900)] + [({"budget": b, "depth": d, "mode": 1, "o0": o0}, 900) for o0 in range(NL, NOPS)]
+            + [({"budget": b2, "depth": d, "mode": m}, 900) for m in (2, 3)])
 
 
 def _tree_from_args(ops, budget, depth):
@@ -404,7 +413,8 @@ HARNESSES = [
             twin_fix={"budget": 3, "depth": 2, "o0": 9}, describe=_describe_filter),
     Harness("program", h_program, _program_shards,
             bounds={"quick": "TestProgram in-process (custom loader returning the generated suite): --list for every tree with <= 3 nodes; "
-                             "--load-list (real temporary list file) for every tree with <= 3 nodes x every subset of {a, b, c, z}",
+                             "--load-list (real temporary list file) for every tree with <= 3 nodes x every subset of {a, b, c, z}; the list file also "
+                             "without a final newline and as CRLF with padding and a blank line (trees with <= 2 nodes)",
                     "thorough": "<= 4 nodes"},
             rule="non-trivial = at least 2 nodes", twin_fix={"budget": 3, "depth": 2, "mode": 0},
             describe=lambda o0, o1, o2, o3, budget, depth, mode, mask: run_program(
